@@ -52,6 +52,20 @@ CLAIMED = {
         "contract-based deductive verification: own VC generator over the real source (ast -> z3 nonlinear real arithmetic), callee contracts with ghost call recording",
         "DESIGN.md §3 C11",
     ),
+    "C07": (
+        "proof",
+        "Per-function contracts over the real Engine/KernelSequence/mixin code, 173 obligations discharged by z3 for all epoch configs, "
+        "durations, chunk sizes and engine states: _start_epoch (end_warmup iff first posterior epoch, flag invariant, chain advance), "
+        "_end_warmup (sets the flag), sample_next_epoch (initial epoch: no kernel call; else start / duration transitions / end in order), "
+        "_sample_for_duration (loop invariant: i chunks = i*chunk transitions; raises iff chunk does not divide), _sample_many (scan invariant: "
+        "j-th transition at within-epoch time t0+j, global time T0+j), _end_epoch/_tune_kernels (tune iff adaptation, history iff needed), "
+        "KernelSequence methods (each kernel once, in order, own key/state, model state threaded), mixins, sample_all_epochs (loop invariant + "
+        "variant). The trace statement is the composition of these contracts. Bounded stand-in: recording kernels under the real engine.",
+        "A-VMAP (vmap calls the mapped function on the per-chain view), A-SCAN, A-JIT, tqdm(it)=it, as_strong_pytree value-preserving; kernel "
+        "count fixed to 1, 2, 3 in the KernelSequence units; _show_progress False; quantity generators absent.",
+        "contract-based deductive verification: own VC generator over the real source, loop/scan invariants, callee contracts with ghost call traces",
+        "DESIGN.md §3 C07",
+    ),
 }
 
 NOT_APPLICABLE = {
